@@ -998,6 +998,93 @@ def run_pykka_case(case, wd):
             time.sleep(0.002)
 
 
+# ---------------------------------------------------------------------------------------
+# dispatch mode: the real listener.send / CoreListener.send / Listener.on_event
+
+DISPATCH_EVENTS = [  # code -> (event name, kwargs)
+    ("playlists_loaded", {}),
+    ("volume_changed", {"volume": 5}),
+    ("mute_changed", {"mute": True}),
+    ("tracklist_changed", {}),
+    ("no_such_event", {}),              # no handler of that name
+    ("seeked", {"foo": 1}),             # a handler exists but does not take these arguments
+    ("options_changed", {}),
+]
+DISPATCH_NAMES = [n for n, _ in DISPATCH_EVENTS]
+
+
+def run_dispatch_case(case, wd):
+    from mopidy.core import CoreListener
+
+    handled = {}
+    dies = {}  # actor_urn -> set of event codes at which the actor stops just before the tell
+    current = {"code": None}
+
+    def make_listener(idx, custom, raise_on):
+        log = handled.setdefault(idx, [])
+
+        def handler(code):
+            def h(self, **kw):
+                if code in raise_on:
+                    raise RuntimeError(f"scripted failure in listener {idx} on event {code}")
+                log.append(code)
+            return h
+
+        body = {}
+        if custom:
+            def on_event(self, event, **kw):
+                code = DISPATCH_NAMES.index(event)
+                if code in raise_on:
+                    raise RuntimeError(f"scripted failure in on_event override {idx} on {code}")
+                log.append(code)
+            body["on_event"] = on_event
+        else:
+            for code, (name, kw) in enumerate(DISPATCH_EVENTS):
+                if name != "no_such_event" and set(kw) != {"foo"}:
+                    body[name] = handler(code)
+        return type(f"ScriptedListener{idx}", (pykka.ThreadingActor, CoreListener), body)
+
+    orig_tell = pykka.ActorRef.tell
+
+    def tell(self, message):
+        if current["code"] in dies.get(self.actor_urn, ()):
+            self.stop(block=True, timeout=5)  # the actor stops after the registry lookup
+        return orig_tell(self, message)
+
+    wd.arm({"dispatch": case}, 30)
+    refs = []
+    sender = []
+    try:
+        with patched() as p:
+            p.set(pykka.ActorRef, "tell", tell)
+            for idx, (custom, raise_on, dies_at) in enumerate(case["listeners"]):
+                ref = make_listener(idx, bool(custom), set(raise_on)).start()
+                refs.append(ref)
+                dies[ref.actor_urn] = set(dies_at)
+            for code in case["events"]:
+                name, kw = DISPATCH_EVENTS[code]
+                current["code"] = code
+                try:
+                    CoreListener.send(name, **kw)
+                    sender.append(0)
+                except pykka.ActorDeadError:
+                    sender.append(1)
+                except Exception:  # noqa: BLE001
+                    sender.append(2)
+                current["code"] = None
+                for ref in refs:  # let every mailbox drain before the next send
+                    try:
+                        ref.ask("sync", block=True, timeout=10)
+                    except pykka.ActorDeadError:
+                        pass
+            time.sleep(0.002)
+            final = [[bool(ref.is_alive()), list(handled.get(i, []))] for i, ref in enumerate(refs)]
+        wd.disarm()
+        return {"sender": sender, "final": final}
+    finally:
+        pykka.ActorRegistry.stop_all(block=True, timeout=5)
+
+
 def main():
     mode, cases_path, out_path = sys.argv[1:4]
     cases = json.loads(open(cases_path).read())
@@ -1009,7 +1096,7 @@ def main():
             t0 = time.monotonic()
             try:
                 res = {"shutdown": run_shutdown_case, "waitfor": run_waitfor_case,
-                       "pykka": run_pykka_case}[mode](case, wd)
+                       "pykka": run_pykka_case, "dispatch": run_dispatch_case}[mode](case, wd)
             except BaseException as e:  # noqa: BLE001
                 res = {"harness_error": f"{type(e).__name__}: {e}", "tb": traceback.format_exc()[-1500:]}
             res["elapsed_s"] = round(time.monotonic() - t0, 3)
